@@ -371,13 +371,13 @@ func astFieldCoverage(r *core.Run) {
 		})
 	}
 	allow := map[string]string{
-		"SourceNode.Start":          "position: read by the diff builder (FromLine)",
-		"SourceNode.End":            "position: read by the diff builder (ToLine)",
-		"Description.Tokens":        "the reflowed description is rebuilt from Description.Value, which is the joined token literals",
-		"Value.unknownValue":        "internal type marker, no text",
-		"Reference.unknownValue":    "internal type marker, no text",
-		"TagValue.unknownValue":     "internal type marker, no text",
-		"Description.SourceNode":    "embedded position",
+		"SourceNode.Start":       "position: read by the diff builder (FromLine)",
+		"SourceNode.End":         "position: read by the diff builder (ToLine)",
+		"Description.Tokens":     "the reflowed description is rebuilt from Description.Value, which is the joined token literals",
+		"Value.unknownValue":     "internal type marker, no text",
+		"Reference.unknownValue": "internal type marker, no text",
+		"TagValue.unknownValue":  "internal type marker, no text",
+		"Description.SourceNode": "embedded position",
 	}
 	var ks []string
 	for k := range written {
@@ -696,15 +696,53 @@ func lexerPositions(r *core.Run) {
 			}
 			n++
 			o := r.Add("R-POS/lexer", fmt.Sprintf("parser.%s | Token literal %s", core.FuncName(fd), core.ExprStr(vals["Type"])), cl.Pos(), "token positions")
-			okPos := func(e ast.Expr) bool {
-				if e == nil {
+			var okPosIn func(in *ast.FuncDecl, e ast.Expr, depth int) bool
+			okPosIn = func(in *ast.FuncDecl, e ast.Expr, depth int) bool {
+				if e == nil || depth > 2 {
 					return false
 				}
 				if c, ok := core.Unparen(e).(*ast.CallExpr); ok && strings.HasSuffix(core.CalleeName(info, c), "Lexer).getPosition") {
 					return true
 				}
-				return strings.HasSuffix(aliasOf(info, fd, e), ".getPosition()")
+				if strings.HasSuffix(aliasOf(info, in, e), ".getPosition()") {
+					return true
+				}
+				// a parameter: every caller in the package must hand in a lexer position
+				id, ok := core.Unparen(e).(*ast.Ident)
+				if !ok || in.Type.Params == nil {
+					return false
+				}
+				idx, i := -1, 0
+				for _, f := range in.Type.Params.List {
+					for _, nm := range f.Names {
+						if info.Defs[nm] == info.Uses[id] {
+							idx = i
+						}
+						i++
+					}
+				}
+				if idx < 0 {
+					return false
+				}
+				callers, good := 0, 0
+				core.AllFuncDecls(pk, func(cfd *ast.FuncDecl) {
+					ast.Inspect(cfd.Body, func(x ast.Node) bool {
+						c, ok := x.(*ast.CallExpr)
+						if !ok || idx >= len(c.Args) {
+							return true
+						}
+						if fn := core.CalleeFunc(info, c); fn != nil && types.Object(fn) == info.Defs[in.Name] {
+							callers++
+							if okPosIn(cfd, c.Args[idx], depth+1) {
+								good++
+							}
+						}
+						return true
+					})
+				})
+				return callers > 0 && callers == good
 			}
+			okPos := func(e ast.Expr) bool { return okPosIn(fd, e, 0) }
 			if okPos(vals["Start"]) && okPos(vals["End"]) {
 				o.Auto("Start and End from getPosition()")
 			} else {
@@ -723,7 +761,14 @@ func lexerPositions(r *core.Run) {
 			}
 			for _, l := range lhs {
 				s := core.ExprStr(l)
-				if s == "l.line" || s == "l.column" || s == "l.linePos" || s == "l.col" {
+				isPosField := false
+				if sel, ok := core.Unparen(l).(*ast.SelectorExpr); ok && strings.HasSuffix(core.TypeStr(info.TypeOf(sel.X)), "parser.Lexer") {
+					switch sel.Sel.Name {
+					case "line", "column", "linePos", "col":
+						isPosField = true
+					}
+				}
+				if isPosField {
 					o := r.Add("R-POS/lexer", fmt.Sprintf("parser.%s | writes %s", core.FuncName(fd), s), nd.Pos(), "writer of the lexer position")
 					if fd.Name.Name == "next" || fd.Name.Name == "NewLexer" {
 						o.Auto("inside Lexer.next")
